@@ -12,7 +12,7 @@ use serde::{Deserialize, Serialize};
 #[derive(Clone, Debug, Serialize, Deserialize, PartialEq, Eq, Hash)]
 pub enum FGene {
     /// dts advances by `ddts` (>= 0); when `back` is Some(b) the submitted dts is (current - b) instead
-    Write { ddts: u32, cts: i32, size: u16, sync: bool, back: Option<u32> },
+    Write { ddts: u32, cts: i32, size: u32, sync: bool, back: Option<u32> },
     Flush,
     Ready,
     DurMs,
@@ -291,7 +291,7 @@ pub fn fgene_strategy() -> impl Strategy<Value = FGene> {
         10 => (
             prop_oneof![4 => Just(3000u32), 2 => Just(0u32), 3 => 0u32..20000, 1 => 0u32..400_000_000, 1 => (1u32 << 31) - 2..(1u32 << 31)],
             prop_oneof![3 => Just(0i32), 2 => 0i32..20000, 2 => -20000i32..0, 1 => any::<i32>().prop_map(|v| v / 2)],
-            prop_oneof![1 => Just(0u16), 6 => 1u16..200, 2 => 200u16..2001],
+            prop_oneof![2 => Just(0u32), 12 => 1u32..200, 4 => 200u32..2001, 1 => 60_000u32..70_000],
             any::<bool>(),
             proptest::option::weighted(0.15, prop_oneof![2 => Just(0u32), 3 => 1u32..5000, 1 => any::<u32>()]),
         )
@@ -321,7 +321,7 @@ pub fn frag_case_strategy(max_ops: usize) -> impl Strategy<Value = FragCase> {
             prop_oneof![4 => 0u16..40, 1 => 0u16..=65535],
             prop_oneof![4 => 0u16..40, 1 => 0u16..=65535],
         ),
-        vec(fgene_strategy(), 0..=max_ops),
+        prop_oneof![19 => vec(fgene_strategy(), 0..=max_ops), 1 => vec(fgene_strategy(), max_ops * 8..=max_ops * 16)],
         proptest::option::weighted(0.3, prop_oneof![Just(3000u32), Just(3003u32), Just(1500u32), 1u32..100000]),
     )
         .prop_map(|(codec, via_builder, start, width, height, pset_len, ops, const_interval)| FragCase {
@@ -334,4 +334,44 @@ pub fn frag_case_strategy(max_ops: usize) -> impl Strategy<Value = FragCase> {
             ops,
             const_interval,
         })
+}
+
+
+/// Fixed list of long / large sequences (counts beyond 255 / 4 096 / 65 535, samples beyond 1 MiB, hundreds of flushes).
+pub fn long_cases() -> Vec<FragCase> {
+    let w = |ddts: u32, size: u32, sync: bool| FGene::Write { ddts, cts: 0, size, sync, back: None };
+    let base = |ops: Vec<FGene>, codec: u8| FragCase { codec, via_builder: codec % 2 == 0, start: 0, width: 640, height: 480, pset_len: (10, 4, 6), ops, const_interval: None };
+    let mut v = Vec::new();
+    // one segment with 70 000 samples
+    let mut ops: Vec<FGene> = (0..70_000u32).map(|i| w(3000, 1 + (i % 5), i % 30 == 0)).collect();
+    ops.push(FGene::Flush);
+    v.push(base(ops, 0));
+    // 400 segments of 2 samples, init requested now and then, queries in between
+    let mut ops = Vec::new();
+    for k in 0..400u32 {
+        ops.push(w(3000, 7 + (k % 3), true));
+        ops.push(w(1500 + (k % 7) * 100, 5, false));
+        if k % 50 == 0 {
+            ops.push(FGene::Init);
+            ops.push(FGene::Ready);
+        }
+        ops.push(FGene::Flush);
+        if k % 9 == 0 {
+            ops.push(FGene::Flush); // empty flush must not consume a sequence number
+        }
+    }
+    v.push(base(ops, 1));
+    // huge and empty samples in one segment, then a 4 097-sample segment
+    let mut ops = vec![w(3000, 3_200_000, true), w(3000, 0, false), w(3000, 1_048_577, false), FGene::Flush];
+    ops.extend((0..4_097u32).map(|i| w(3003, 2 + (i % 2), i == 0)));
+    ops.push(FGene::Flush);
+    v.push(base(ops, 2));
+    // 256 / 257 samples per segment boundaries
+    let mut ops = Vec::new();
+    for n in [255u32, 256, 257, 1, 65_536] {
+        ops.extend((0..n).map(|i| w(3000, 3, i == 0)));
+        ops.push(FGene::Flush);
+    }
+    v.push(base(ops, 3));
+    v
 }
